@@ -33,7 +33,7 @@ SUITES = {
                           "st_remove__s8_4a", "st_remove__s8_8g0", "st_remove__s8m0_4a", "st_remove_entry__s8_4one",
                           "st_lookup__s8_8g0", "st_lookup__u8_3t", "st_clear__s8_8g4", "st_clear__s8m0_4a",
                           "st_raw_replace_with__s8_8g0", "it_iter_mut__s8_4a",
-                          "zst_remove__old", "zst_remove__old2", "zst_insert__old", "en_raw_or_insert__u4f",
+                          "zst_remove__old", "zst_remove__old2", "zst_insert__old", "en_raw_or_insert__u4f", "en_raw_vacant_with_hasher__u4f",
                           # extend / from_iter go through reserve: no undocumented panic, contents kept
                           "cap_reserve__s8_4a", "cap_reserve__s8_8g4"]),
                   ("km-cnt", ["cnt_reserve__split"])],
@@ -86,7 +86,7 @@ SUITES = {
     "C08": {
         "quick": [("km", ["it_iter__s8_4a_c0", "it_iter__s8_8g4_c1", "it_iter__s8_e_c1", "it_iter__u8_3t_c1", "it_keys_values__s8_8g4",
                           "it_iter_mut__s8_8g4", "it_values_mut__s8_8g4", "it_into_iter__s8_4a_j1", "it_into_iter__s8_8g4_end",
-                          "it_into_iter__s8_e_end", "it_drain__s8_4a_j1", "it_drain__s8_8g4_j2f", "it_drain__s8_4a_end", "it_drain__u8_3t_endf",
+                          "it_into_iter__s8_e_end", "it_drain__s8_4a_j1", "it_drain__s8_8g4_j2f", "it_drain__s8_4a_end", "it_drain__u8_3t_endf", "se_iter__s8_8g4", "se_drain__s8_4a", "se_into_iter__s8_8g4",
                           # iterators are built from the cached old-table iterator: the calls that must keep it exact (I2)
                           "st_raw_replace_with__s8_8g0", "st_remove__s8_8g0", "rt_retain__s8_8g0", "st_insert__s8_8g4"])],
         "thorough": [("km", ["it_*"])],
@@ -109,7 +109,7 @@ SUITES = {
         "quick": [("km", ["en_dispatch__s8_8g0", "en_occ_read__s8_8g0", "en_occ_get_mut__s8_8g0", "en_occ_insert__s8_4a", "en_occ_remove__s8_8g0",
                           "en_occ_replace_entry__s8_8g0", "en_occ_replace_key__s8_8g4", "en_occ_replace_with__s8_8g0", "en_occ_replace_with__s8_4one",
                           "en_vacant_insert__u4f", "en_vacant_insert__s8_4a", "en_vacant_insert__s4f_e",
-                          "en_raw_insert__u4f", "en_raw_or_insert__u4f", "en_raw_and_modify__s8_8g0", "en_raw_vacant_hashed__s8_4a",
+                          "en_raw_insert__u4f", "en_raw_or_insert__u4f", "en_raw_and_modify__s8_8g0", "en_raw_vacant_hashed__s8_4a", "en_raw_vacant_with_hasher__u4f",
                           "en_raw_occ_misc__s8_8g4", "st_raw_replace_with__s8_8g4"])],
         "thorough": [("km-np", ["st_insert__u4f", "st_insert__s8_4a", "st_insert__s8_8g4", "st_insert__s4f_e", "en_vacant_insert__u4f", "en_vacant_insert__s8_4a", "en_raw_or_insert__u4f", "st_remove__s8_8g0"]), ("km", ["en_*", "st_raw_replace_with__*"])],
     },
@@ -133,7 +133,7 @@ SUITES = {
         "thorough": [("km", ["se_*"])],
     },
     "C14": {
-        "quick": [("km", ["eq_same__s8_4a__u", "eq_differ__s8_4a__u", "eq_differ__u__s8_8g0", "eq_transitive",
+        "quick": [("km", ["eq_same__s8_4a__u", "eq_differ__s8_4a__u", "eq_differ__u__s8_8g0", "eq_transitive", "eq_submap__u8_3t__s8_4a", "eq_submap__u0__s8_4one",
                           # == walks one map and looks up in the other: it rests on "no key stored twice" (I3) and
                           # cursor agreement (I2) being kept by the calls that rebuild or splice tables
                           "cl_clone_from__s8_4a__s8_4a", "cl_clone__s8_8g4", "st_raw_replace_with__s8_8g0"])],
